@@ -167,6 +167,32 @@ func init() {
 		"sort.Strings":     inSortStrings,
 
 		"math.Log":   func(ip *Interp, fn *ssa.Function, a []Value) Value { return math.Log(a[0].(float64)) },
+		"math.Round":       func(ip *Interp, fn *ssa.Function, a []Value) Value { return math.Round(a[0].(float64)) },
+		"math.RoundToEven": func(ip *Interp, fn *ssa.Function, a []Value) Value { return math.RoundToEven(a[0].(float64)) },
+		"math.Trunc":       func(ip *Interp, fn *ssa.Function, a []Value) Value { return math.Trunc(a[0].(float64)) },
+		"math.Sqrt":        func(ip *Interp, fn *ssa.Function, a []Value) Value { return math.Sqrt(a[0].(float64)) },
+		"math.Exp":         func(ip *Interp, fn *ssa.Function, a []Value) Value { return math.Exp(a[0].(float64)) },
+		"math.Log2":        func(ip *Interp, fn *ssa.Function, a []Value) Value { return math.Log2(a[0].(float64)) },
+		"math.Log10":       func(ip *Interp, fn *ssa.Function, a []Value) Value { return math.Log10(a[0].(float64)) },
+		"math.Log1p":       func(ip *Interp, fn *ssa.Function, a []Value) Value { return math.Log1p(a[0].(float64)) },
+		"math.Pow": func(ip *Interp, fn *ssa.Function, a []Value) Value {
+			return math.Pow(a[0].(float64), a[1].(float64))
+		},
+		"math.Mod": func(ip *Interp, fn *ssa.Function, a []Value) Value {
+			return math.Mod(a[0].(float64), a[1].(float64))
+		},
+		"math.Max": func(ip *Interp, fn *ssa.Function, a []Value) Value {
+			return math.Max(a[0].(float64), a[1].(float64))
+		},
+		"math.Min": func(ip *Interp, fn *ssa.Function, a []Value) Value {
+			return math.Min(a[0].(float64), a[1].(float64))
+		},
+		"math.Float64bits": func(ip *Interp, fn *ssa.Function, a []Value) Value {
+			return ip.p.T.Const(64, math.Float64bits(a[0].(float64)))
+		},
+		"math.Float64frombits": func(ip *Interp, fn *ssa.Function, a []Value) Value {
+			return math.Float64frombits(uint64(ip.concInt(a[0])))
+		},
 		"math.Floor": func(ip *Interp, fn *ssa.Function, a []Value) Value { return math.Floor(a[0].(float64)) },
 		"math.Ceil":  func(ip *Interp, fn *ssa.Function, a []Value) Value { return math.Ceil(a[0].(float64)) },
 		"math.Abs":   func(ip *Interp, fn *ssa.Function, a []Value) Value { return math.Abs(a[0].(float64)) },
